@@ -309,6 +309,21 @@ REQUESTS = {
     'str-of-the-exception-raises': ('eval', ('class E(Exception):\n    def __str__(self): raise RuntimeError("x")\nraise E()',), {}),
 }
 
+# requests whose answer depends on the configured project ($A and $B are source roots made for the run: $A holds alpha_mod.py, $B holds beta_mod.py)
+PROJECT_REQUESTS = {
+    'eval-tuple-keys': ('eval', ('return {((1, 2), 3): "v", (4, (5, (6,))): [((7,),)]}',), {}),
+    'configure-A': ('configure', ({'sources': ['$A']},), {}),
+    'configure-B-dyn': ('configure', ({'sources': ['$B'], 'dyn_modules': ['os']},), {}),
+    'assist-import': ('assist', ('import ', [1, 7], 'f.py'), {}),
+    'assist-from-alpha': ('assist', ('from alpha_mod import ', [1, 22], 'f.py'), {}),
+    'lint-star-alpha': ('lint', ('from alpha_mod import *\nprint(alpha_name, beta_name)\n', 'f.py'), {}),
+    'configure-bad-dyn': ('configure', ({'sources': ['$B'], 'dyn_modules': 5},), {}),
+    'configure-no-sources': ('configure', ({'dyn_modules': ['os']},), {}),
+    'configure-not-a-map': ('configure', (7,), {}),
+    'configure-wrong-arguments': ('configure', (), {'sources': ['$B']}),
+}
+REQUESTS.update(PROJECT_REQUESTS)
+
 
 def _lists(x):
     if isinstance(x, (list, tuple)):
@@ -344,7 +359,32 @@ def play_sequence(seq):
         def close(self):
             self.closed = True
 
-    reqs = [REQUESTS[k] for k in seq]
+    import shutil
+    import tempfile
+    root = tempfile.mkdtemp(prefix='supp-c15-')
+    try:
+        return _play(seq, root, Sv, Wire, dumps, loads)
+    finally:
+        shutil.rmtree(root, ignore_errors=True)
+
+
+def _subst(x, root):
+    if isinstance(x, str):
+        return x.replace('$A', root + '/a').replace('$B', root + '/b')
+    if isinstance(x, (list, tuple)):
+        return type(x)(_subst(i, root) for i in x)
+    if isinstance(x, dict):
+        return {k: _subst(v, root) for k, v in x.items()}
+    return x
+
+
+def _play(seq, root, Sv, Wire, dumps, loads):
+    import os
+    for d, mod, name in (('a', 'alpha_mod', 'alpha_name'), ('b', 'beta_mod', 'beta_name')):
+        os.mkdir(os.path.join(root, d))
+        with open(os.path.join(root, d, mod + '.py'), 'w') as f:
+            f.write('%s = 1\n' % name)
+    reqs = [_subst(REQUESTS[k], root) for k in seq]
     wire = Wire(reqs)
     srv = Sv.Server(wire)
     srv.configure({'sources': ['/nonexistent']})
@@ -360,13 +400,23 @@ def play_sequence(seq):
             got.append((_lists(r), ok) if ok else ('error', r[1] if isinstance(r, (list, tuple)) and len(r) == 2 else r))
         except Exception as e:
             got.append(('undecodable reply', type(e).__name__))
-    # the in-process answers
-    ref = Sv.Server(None)
-    ref.configure({'sources': ['/nonexistent']})
-    want = []
+    # the in-process answers; a request that fails leaves no trace: the reference for the requests after it is a server that never saw it
+    def fresh(history):
+        ref = Sv.Server(None)
+        ref.configure({'sources': ['/nonexistent']})
+        for name, args, kwargs in history:
+            getattr(ref, name)(*args, **kwargs)
+        return ref
+    ref = fresh([])
+    want, applied = [], []
     for name, args, kwargs in reqs:
         try:
-            r = getattr(ref, name)(*args, **kwargs)
+            try:
+                r = getattr(ref, name)(*args, **kwargs)
+                applied.append((name, args, kwargs))
+            except Exception:
+                ref = fresh(applied)
+                raise
             try:
                 dumps(r)
                 want.append((_lists(r), True))
@@ -382,7 +432,9 @@ def play_sequence(seq):
 
 @harness(['C15'], 'supp.server.Server.run / process over the real codec [request sequences]',
          bounded='every sequence of 1 and 2 requests, and every failing request followed by two good ones, over 11 request kinds (4 that succeed; unknown '
-                 'method, wrong arguments, exception, unserialisable result (flat and nested), syntax error in the request, an exception whose str() raises)')
+                 'method, wrong arguments, exception, unserialisable result (flat and nested), syntax error in the request, an exception whose str() raises); '
+                 'a result with nested tuples as map keys; 6 configure requests (2 valid, 4 failing: bad dyn_modules, no sources, not a map, wrong arguments) '
+                 'before and between 3 questions whose answer depends on the configured source roots (71 sequences of 2 to 4 requests)')
 def request_sequences(run):
     """BOUNDED end-to-end stand-in: the real request loop, the real process() and the real dumps / loads on an in-memory connection; every reply
     equals the in-process answer (tuples as lists), replies pair with requests in order, a failing request is reported as an error carrying the
@@ -394,7 +446,15 @@ def request_sequences(run):
     def go(path):
         kinds = list(REQUESTS)
         good = ['lint-ok', 'eval-ok']
+        kinds = [k for k in kinds if k not in PROJECT_REQUESTS]
         seqs = [(k,) for k in kinds] + list(itertools.product(kinds, repeat=2)) + [(k, g1, g2) for k in kinds[4:] for g1 in good for g2 in good]
+        # answers that depend on the configured project: every (re)configuration, failed or not, between two questions about the project
+        conf = ['configure-A', 'configure-B-dyn', 'configure-bad-dyn', 'configure-no-sources', 'configure-not-a-map', 'configure-wrong-arguments']
+        asks = ['assist-import', 'assist-from-alpha', 'lint-star-alpha']
+        seqs += [('eval-tuple-keys',), ('raises', 'eval-tuple-keys', 'lint-ok')]
+        seqs += [(c, q) for c in conf for q in asks]
+        seqs += [('configure-A', q, c, q) for c in conf + ['raises', 'unserialisable-result', 'unknown-method'] for q in asks]
+        seqs += [('configure-A', c1, c2, q) for c1 in conf[2:] for c2 in conf[1:3] for q in asks[:2]]
         for seq in seqs:
             got, want, ended = play_sequence(seq)
             ok = ended and len(got) == len(want)
